@@ -7,10 +7,12 @@ CONSTANTS
   LineForms <- MC_FormsReduced
   FirstForms <- MC_FormsReduced
   MaxLines = 3
+  MaxBlocks = 1
   AsFound_MarkerTestedOnRawLine = TRUE
 INVARIANT TypeOK
 INVARIANT C14_ExactlyOneClass
 INVARIANT C14_MeaningUnchanged
 INVARIANT C14_TimeSupplied
 INVARIANT C14_MalformedReported
+INVARIANT C14_BlockAlone
 CHECK_DEADLOCK FALSE
